@@ -126,6 +126,8 @@ def evaluate(prop: str, tier: str, specs: List[RuleSpec], ctx, known: Dict[str, 
             elif i.status == VIOL:
                 if i.fid() in known and prop in known[i.fid()].get("properties", [prop]):
                     counts["known"] += 1
+                    e = known[i.fid()]
+                    i.msg = f"{e.get('finding', '')}: {e.get('what', '')} [{i.msg}]"
                     out.known_hits.append(i)
                 else:
                     counts["violation"] += 1
